@@ -64,6 +64,7 @@ type deferRec struct {
 }
 
 type Path struct {
+	lastRet Val // result of the call whose `after` site ghosts are being applied (bound to `ret`)
 	fx      *FnCtx
 	items   []Item
 	vals    map[ssa.Value]Val
